@@ -847,6 +847,13 @@ def units(tier):
           Unit("correct_split_approach_retract", unit_split), Unit("find_turning_point", unit_find_turning_point),
           Unit("smooth_height", unit_smooth_height), Unit("smooth_axis_monotone.exit_lemmas", unit_smoothing_lemmas),
           Unit("bounded.steps_on_curves", unit_bounded_steps)]
+    # a step "does what its description says" for the option values of the request only if the request reaches it:
+    # Indentation.apply_preprocessing hands exactly the requested steps and options to preproc.apply, which hands
+    # every step its own options (contracts shared with C06)
+    from . import indent_units as IU
+    from . import c06
+    us += [Unit("apply_preprocessing", IU.unit_apply_preprocessing, prop="C07"),
+           Unit("preproc.apply", c06.unit_apply_options, prop="C07")]
     if tier == "thorough" and not os.environ.get("VF_NO_CANARIES") and str(REPO) == "/repo":
         us.append(Unit("selftest.canaries", unit_canaries))
     return us
